@@ -172,10 +172,28 @@ FdClose(s, c) ==
     IF ~Live(s, c.fd) THEN Res(s, EBADF, NoOut)
     ELSE Res([s EXCEPT !.fds[c.fd + 1].st = "closed"], ESUCCESS, NoOut)
 
-\* only a pre-opened directory has a prestat: [type 0 = directory, length of its path]
+\* a pre-opened directory has a prestat: [type 0 = directory, length of its path]; the standard streams have none;
+\* what descriptors obtained from path_open answer is not specified here (w2c2 reports their path as well)
 FdPrestat(s, c) ==
-    IF ~Live(s, c.fd) \/ FdOf(s, c.fd).st # "preopen" THEN Res(s, EBADF, NoOut)
+    IF ~Live(s, c.fd) \/ FdOf(s, c.fd).st = "std" THEN Res(s, EBADF, NoOut)
+    ELSE IF FdOf(s, c.fd).st # "preopen" THEN Res(s, EUNSPEC, NoOut)
     ELSE Res(s, ESUCCESS, [preopen |-> TRUE])
+
+\* fd_fdstat_get: file type (3 directory, 4 regular file) and the append flag (bit 0 of the flags); rights are not predicted
+FdFdstat(s, c) ==
+    IF ~Live(s, c.fd) THEN Res(s, EBADF, NoOut)
+    ELSE LET d == FdOf(s, c.fd) IN
+    IF d.st = "std" THEN Res(s, EUNSPEC, NoOut)
+    ELSE IF d.st = "preopen" \/ d.kind = "dir" THEN Res(s, ESUCCESS, [ftype |-> 3, flags |-> 0])
+    ELSE Res(s, ESUCCESS, [ftype |-> 4, flags |-> IF d.app THEN 1 ELSE 0])
+
+\* fd_sync / fd_datasync: a descriptor from path_open is flushed; the pre-open has no native descriptor (EINVAL)
+FdSync(s, c) ==
+    IF ~Live(s, c.fd) THEN Res(s, EBADF, NoOut)
+    ELSE LET d == FdOf(s, c.fd) IN
+    IF d.st = "std" THEN Res(s, EUNSPEC, NoOut)
+    ELSE IF d.st = "preopen" THEN Res(s, EINVAL, NoOut)
+    ELSE Res(s, ESUCCESS, NoOut)
 
 ----------------------------------------------------------------------------
 (* path operations (C14): resolve against the descriptor's path, then exactly one host operation *)
@@ -242,7 +260,9 @@ Call(s, c) ==
       [] c.call = "close"    -> FdClose(s, c)
       [] c.call \in {"prestat", "prestatname"} -> FdPrestat(s, c)
       \* calls whose full meaning belongs to other properties: here only "closed or never issued => EBADF"
-      [] c.call \in {"readdir", "fdstat", "sync", "datasync"} -> (IF ~Live(s, c.fd) THEN Res(s, EBADF, NoOut) ELSE Res(s, EUNSPEC, NoOut))
+      [] c.call = "fdstat" -> FdFdstat(s, c)
+      [] c.call \in {"sync", "datasync"} -> FdSync(s, c)
+      [] c.call = "readdir" -> (IF ~Live(s, c.fd) THEN Res(s, EBADF, NoOut) ELSE Res(s, EUNSPEC, NoOut))
       [] c.call \in {"mkdir", "rmdir", "unlink", "readlink", "pathstat", "symlink", "rename"} -> PathOp(s, c)
       [] c.call = "mkfile"   -> Res([s EXCEPT !.fs = SetF(@, c.path, PutAt(EmptyFile, Z8, c.bytes))], ESUCCESS, NoOut)   \* scenario setup
       [] c.call = "mklink"   -> Res([s EXCEPT !.fs = SetF(@, c.path, [kind |-> "link", target |-> c.target])], ESUCCESS, NoOut)
